@@ -217,6 +217,7 @@ fn transfer(case: &Value, out: &mut Obj) -> Result<(), Obj> {
 
     let sub_arg: SubIndex = if complete { SubIndex::Complete } else { SubIndex::Index(sub) };
     let frames0 = env.frames;
+    let log0 = env.seg.log.len();
     let t0 = simrun::now_us();
     match dir {
         "read" => {
@@ -278,7 +279,27 @@ fn transfer(case: &Value, out: &mut Obj) -> Result<(), Obj> {
     out.insert("frames".into(), json!(env.frames - frames0));
     out.insert("virtual_us".into(), json!((simrun::now_us() - t0).min(0x7FFF_FFFF)));
     mailbox_log(&env, out);
+    wire_log(&env, log0, out);
     Ok(())
+}
+
+/// Datagrams addressed to the device under test since `from`: `[cmd, ado, len, wkc]`.
+fn wire_log(env: &Env, from: usize, out: &mut Obj) {
+    let dut = env.seg.device(1).station_address();
+    let wire: Vec<Value> = env
+        .seg
+        .log
+        .iter()
+        .skip(from)
+        .filter_map(|e| match e {
+            simdev::simnet::SimEvent::Datagram { cmd, adp, ado, len, wkc, .. } if *adp == dut => {
+                Some(json!([cmd, ado, len, wkc]))
+            }
+            _ => None,
+        })
+        .take(4000)
+        .collect();
+    out.insert("wire".into(), Value::Array(wire));
 }
 
 fn has_run(data: &[u8], byte: u8, n: usize) -> bool {
